@@ -238,13 +238,23 @@ def oracle_hist(case, ctx):
                 if i == len(case['actions']) // 2:
                     # switch representation in mid-episode: the very next read must already be inside the newly advertised space
                     other = reps.NAMES[(reps.NAMES.index(name) + 1 + case['seed'] % 2) % 3]
-                    env.set_observation_representation(other)
-                    if srep is not None:
-                        env.set_state_representation(other)
+
+                    def switch(to):
+                        if (case['seed'] + k) % 2:
+                            env.set_observation_representation(to)
+                            if srep is not None:
+                                env.set_state_representation(to)
+                        else:
+                            # the outer environment's representations are public attributes
+                            outer.observation_representation = make_observation_representation(to, inner.observation_space)
+                            env.observation_space = outer_space_to_gym_space(outer.observation_representation.space)
+                            if srep is not None:
+                                outer.state_representation = make_state_representation(to, inner.state_space)
+                                env.state_space = outer_space_to_gym_space(outer.state_representation.space)
+
+                    switch(other)
                     check(env.observation, f'read right after switching {name} -> {other}')
-                    env.set_observation_representation(name)
-                    if srep is not None:
-                        env.set_state_representation(name)
+                    switch(name)
                     check(env.observation, f'read right after switching back to {name}')
             # environments built earlier in this process are used again: they must still be inside *their* advertised spaces
             for (penv, pname, pcfg) in earlier[-7:]:
